@@ -136,9 +136,13 @@ Record response := mkResp {
                                          client-supplied ones that survived carry HStr 0 under code 1000+c *)
   r_cors : bool;
   r_calls : list pcall;
+  r_flags : list N;    (* anomalies the harness found in the raw response; the model never produces any:
+                          1 request data reflected unescaped / malformed JSON / error body of the wrong type
+                          2 a Set-Cookie without the required attributes   3 a Set-Cookie line over 4096 bytes
+                          4 a planted secret readable in a cookie value without the key   5 the handler panicked *)
 }.
 
-Definition resp0 : response := mkResp 0 None [] BNone None false [].
+Definition resp0 : response := mkResp 0 None [] BNone None false [] [].
 
 (* ------------------------------------------------------------------ helpers *)
 
@@ -275,7 +279,7 @@ Section Serve.
          end.
 
   Definition send_error (rq : request) (m : message) (code : N) (cookies : list setcookie) (calls : list pcall) : response :=
-    mkResp code None cookies (if q_json rq then BJson m else BHtml m) None false calls.
+    mkResp code None cookies (if q_json rq then BJson m else BHtml m) None false calls [].
 
   (* defaultInitiateAuthentication *)
   Definition initiate (rq : request) (rnd : istr * istr * istr) (st : inst) (sd : sdata)
@@ -289,7 +293,7 @@ Section Serve.
     mkResp 302
            (Some (LAuth (i_auth_url st) csrf nonce (if c_pkce cfg then verifier else 0%N)
                         (q_scheme rq) (q_host rq)))
-           (cookies ++ cs1 ++ save_cookies sd4) BNone None false calls.
+           (cookies ++ cs1 ++ save_cookies sd4) BNone None false calls [].
 
   (* fixed message texts (codes agreed with the harness) *)
   Definition msg_domain_denied := MFixed 1.      (* 403 Access denied: Your email domain is not allowed ... *)
@@ -374,8 +378,8 @@ Section Serve.
         let h4 := template_headers t h3 in
         let cors := negb (N.eqb (q_origin rq) 0) in
         if cors && q_options rq
-        then mkResp 200 None cookies BNone None true calls
-        else mkResp 200 None cookies BNone (Some h4) cors calls.
+        then mkResp 200 None cookies BNone None true calls []
+        else mkResp 200 None cookies BNone (Some h4) cors calls [].
 
   (* handleExpiredToken *)
   Definition handle_expired (rq : request) (rnd : istr * istr * istr) (st : inst) (sd : sdata) : response :=
@@ -421,7 +425,7 @@ Section Serve.
                   let target := if negb (N.eqb inc 0) && negb (N.eqb inc (c_callback cfg)) && local_path inc
                                 then inc else slash in
                   let sd5 := set_main 7 0 sd4 in
-                  (st1, mkResp 302 (Some (LPath target)) (save_cookies sd5) BNone None false [call])
+                  (st1, mkResp 302 (Some (LPath target)) (save_cookies sd5) BNone None false [call] [])
         end.
 
   (* refreshToken: (state, session, cookies emitted, calls, success) *)
@@ -472,15 +476,15 @@ Section Serve.
                | _ => if N.eqb (i_end_session st) 0 then post_logout rq
                       else LEndSession (i_end_session st) t (post_logout rq)
                end in
-    mkResp 302 (Some loc) cs BNone None false [].
+    mkResp 302 (Some loc) cs BNone None false [] [].
 
   (* ServeHTTP *)
   Definition serve (st : inst) (now : time) (rq : request) (rnd : istr * istr * istr) (ans : option answer)
     : inst * response :=
     if negb (i_ready st) then
-      (st, mkResp (if q_ctx_done rq then 408 else 503) None [] BPlain None false [])
+      (st, mkResp (if q_ctx_done rq then 408 else 503) None [] BPlain None false [] [])
     else if excluded (q_path rq) then
-      (st, mkResp 200 None [] BNone (Some (map (fun c => (1000 + c, HStr 0))%N (q_client_ids rq))) false [])
+      (st, mkResp 200 None [] BNone (Some (map (fun c => (1000 + c, HStr 0))%N (q_client_ids rq))) false [] [])
     else
       let sd := load (c_key cfg) now (q_jar rq) in
       if N.eqb (q_path rq) (c_logout cfg) then (st, handle_logout rq st sd)
@@ -492,7 +496,7 @@ Section Serve.
         else if refresh && negb (tval_eqb (get_refresh NC sd) TEmpty) then
           let '(st1, sd1, cs, calls, ok) := refresh_token st now sd ans in
           if ok then (st1, process_authorized rq rnd st1 sd1 cs calls)
-          else if q_json rq then (st1, mkResp 401 None cs BJson401 None false calls)
+          else if q_json rq then (st1, mkResp 401 None cs BJson401 None false calls [])
           else (st1, initiate rq rnd st1 sd1 cs calls)
         else (st, initiate rq rnd st sd [] []).
 
